@@ -18,11 +18,9 @@ import FqModel.Gaps
   Quirks kept (they matter):
   * `bitio.SectionReader.SeekBits` (sectiontreader.go:46) rejects positions before the section but
     accepts ANY position after its end.  `D.trySeekAbs` (decode.go:736) refuses `pos > Len()` itself
-    (fix b19305f5), so SeekAbs/SeekRel and the SeekRel inside Framed/LimitedFn cannot leave the section;
-    `RangeFn` still seeks its section reader directly (`br.SeekBits(firstBit)`, decode.go:961), so
-    `RangeFn(firstBit, nBits < 0)` starts `fn` with the cursor beyond the end of its section (and possibly of
-    the buffer): a zero-width read, a synthetic value or an empty struct/array there records a range outside
-    the buffer (ghost flag `over`; Framed/LimitedFn reject a negative nBits with Fatalf, RangeFn does not).
+    (fix b19305f5) and `RangeFn` — like FramedFn/LimitedFn — refuses a negative nBits with Fatalf, also under
+    Force (fix 2947129a), so the cursor of a decoder never stands beyond the end of its section (ghost flag
+    `over`, proved to stay false).  `doSubOld` keeps the RangeFn rule before 2947129a for the regression theorem.
   * `Field{Struct,Array}RootBitBufFn` post-process the nested root in a `defer` (fix 227ce6eb), i.e. also
     when a decoder error unwinds through them.
   * `decode()` treats the range 0:0 as "whole buffer" (`Range.IsZero`, decode.go:55), also for
@@ -319,8 +317,10 @@ def doComp (arr : Bool) (name : FName) (body : Body) (c : Ctx) (st : St) : St :=
 
 /-- firstBit of the RangeFn call behind Framed/Limited/RangeFn -/
 def SubKind.first (k : SubKind) (pos : Int) : Int := match k with | .range off => off | _ => pos
-/-- Framed/LimitedFn: Fatalf("nBits < 0") -/
-def SubKind.negFatal (k : SubKind) (n : Int) : Bool := match k with | .range _ => false | _ => decide (n < 0)
+/-- Framed/Limited/RangeFn: Fatalf("nBits < 0") (DecoderError, regardless of Force) -/
+def SubKind.negFatal (_k : SubKind) (n : Int) : Bool := decide (n < 0)
+/-- before fix 2947129a RangeFn did not check -/
+def SubKind.negFatalOld (k : SubKind) (n : Int) : Bool := match k with | .range _ => false | _ => decide (n < 0)
 /-- the cursor of `d` after the call: RangeFn leaves it, FramedFn does `d.SeekRel(nBits)`, LimitedFn
     `d.SeekRel(endPos - startPos)` — trySeekAbs refuses a target beyond `d.Len()` (IOPanic) -/
 def SubKind.finish (k : SubKind) (st r : St) (n L : Int) : St := match k with
@@ -332,6 +332,20 @@ def SubKind.finish (k : SubKind) (st r : St) (n L : Int) : St := match k with
 def doSub (k : SubKind) (n : Int) (body : Body) (c : Ctx) (st : St) : St :=
   let L : Int := c.buf.length
   if k.negFatal n then st.fail .de
+  else
+    let first := k.first st.pos
+    let tot := first + n
+    -- RangeFn: BitBufRange(0, firstBit+nBits) then br.SeekBits(firstBit)
+    if tot < 0 ∨ tot > L ∨ first < 0 then st.fail .io
+    else
+      let r := body { c with buf := c.buf.take tot.toNat } { st with pos := first, over := st.over || decide (first > tot) }
+      if !r.ok then r else k.finish st r n L
+
+/-- HISTORICAL: `doSub` as the code was before fix 2947129a (RangeFn accepted a negative nBits and started `fn`
+    with the cursor beyond its section); only used by the regression theorem `rangefn_negative_old_rule_witness` -/
+def doSubOld (k : SubKind) (n : Int) (body : Body) (c : Ctx) (st : St) : St :=
+  let L : Int := c.buf.length
+  if k.negFatalOld n then st.fail .de
   else
     let first := k.first st.pos
     let tot := first + n
@@ -443,25 +457,6 @@ def execList : List Prog → Ctx → St → St
   | p :: ps, c, st =>
     let st' := exec p c st
     if st'.ok then execList ps c st' else st'
-end
-
-/-! ### the program fragment of the theorems: no RangeFn with a negative length (see the header) -/
-
-def SubKind.lenOK (k : SubKind) (n : Int) : Bool := match k with | .range _ => decide (0 ≤ n) | _ => true
-
-mutual
-def Prog.noNegRange : Prog → Bool
-  | .sub k n body => k.lenOK n && noNegRangeL body
-  | .comp _ _ body => noNegRangeL body
-  | .seek _ _ _ body => noNegRangeL body
-  | .fmt _ _ _ body => noNegRangeL body
-  | .fmtBuf _ _ _ body => noNegRangeL body
-  | .rootFn _ _ _ body => noNegRangeL body
-  | .loop _ _ body => noNegRangeL body
-  | _ => true
-def noNegRangeL : List Prog → Bool
-  | [] => true
-  | p :: ps => p.noNegRange && noNegRangeL ps
 end
 
 /-! ## the top-level decode (what interp `_decode` / the harness call) -/
